@@ -5,6 +5,7 @@ set -u
 here="$(cd "$(dirname "$0")/.." && pwd)"
 id="$1"; props="${2:-all}"
 export GOFLAGS=-mod=mod GOPROXY=off GOSUMDB=off GOTOOLCHAIN=local CGO_ENABLED=0; unset GOWORK
+export GOCACHE="${VERIF_SCRATCH_GOCACHE:-/tmp/verif-scratch-gocache}"   # scratch copies at ever new paths would bloat the shared cache
 ( cd "$here/checker" && go build -o "$here/bin/spinecheck" . ) || exit 2
 scratch=$(mktemp -d /tmp/seedc.XXXXXX); trap 'rm -rf "$scratch"' EXIT
 rsync -a --exclude .git /repo/ "$scratch/repo/"; mkdir -p "$scratch/verif"; cp "$here/known_findings.txt" "$scratch/verif/"
